@@ -4,6 +4,7 @@ mod device;
 mod dhcpdns;
 mod mk;
 mod runner;
+mod scen_dgram;
 mod scen_peer;
 mod scen_tcp;
 mod tap;
@@ -30,6 +31,19 @@ fn peer_sender(t: &mut Tape, p: Props, thorough: bool, trace: bool) -> Outcome {
 
 fn peer_states(t: &mut Tape, p: Props, thorough: bool, trace: bool) -> Outcome {
     scen_peer::run_states(t, p, thorough, trace)
+}
+
+fn dgram_exact(t: &mut Tape, p: Props, thorough: bool, trace: bool) -> Outcome {
+    scen_dgram::run(t, p, &scen_dgram::Params { thorough, frag_heavy: false, exact: true }, trace)
+}
+fn dgram_sloppy(t: &mut Tape, p: Props, thorough: bool, trace: bool) -> Outcome {
+    scen_dgram::run(t, p, &scen_dgram::Params { thorough, frag_heavy: false, exact: false }, trace)
+}
+fn dgram_frag(t: &mut Tape, p: Props, thorough: bool, trace: bool) -> Outcome {
+    scen_dgram::run(t, p, &scen_dgram::Params { thorough, frag_heavy: true, exact: true }, trace)
+}
+fn dgram_frag_sloppy(t: &mut Tape, p: Props, thorough: bool, trace: bool) -> Outcome {
+    scen_dgram::run(t, p, &scen_dgram::Params { thorough, frag_heavy: true, exact: false }, trace)
 }
 
 const REAL: &str = "smoltcp::iface::Interface, SocketSet, all socket types used by the scenario, wire, storage, iface::{neighbor,route,fragmentation} - built from /repo's working tree";
@@ -114,6 +128,39 @@ fn defs() -> &'static [CheckDef] {
                 thorough_s: 600.0,
             },
             CheckDef {
+                id: "C09",
+                props: Props::of(&["C09"]),
+                scens: vec![Scen { name: "dgram-pair-exact", weight: 2, run: dgram_exact }, Scen { name: "dgram-pair-sloppy", weight: 2, run: dgram_sloppy }, Scen { name: "dgram-pair-frag", weight: 1, run: dgram_frag }],
+                rule: "one run = two real nodes with UDP and ICMP sockets (metadata rings 1-8 slots, payload rings 16-8192 bytes) exchanging tape-chosen datagrams over a faulty link with neighbour-resolution delays and device back-pressure; FIFO reference model per socket; non-trivial = a fault fired AND >= 3 datagrams delivered; distinct = event-log hash",
+                assumptions: vec!["raw sockets are not yet part of the workload", "exactly-once is judged at quiescence (no frame in flight, no deadline) after faults stopped"],
+                real: REAL,
+                stub: STUB,
+                quick_s: 20.0,
+                thorough_s: 600.0,
+            },
+            CheckDef {
+                id: "C12",
+                props: Props::of(&["C12"]),
+                scens: vec![Scen { name: "dgram-pair-frag", weight: 2, run: dgram_frag }, Scen { name: "dgram-pair-frag-sloppy", weight: 1, run: dgram_frag_sloppy }],
+                rule: "one run = two real IPv4 nodes sending oversized UDP/ICMP datagrams (and oversized echo replies) back to back, MTU 68..1507 over every residue mod 8, fragments permuted/duplicated/lost/delayed by the link, device refusing between fragments; independent reassembly of what the sender emits and of what reaches the receiver; non-trivial = at least one datagram actually fragmented AND a fault fired; distinct = event-log hash",
+                assumptions: vec!["must-deliver is only claimed when a conservative mirror of the single reassembly slot says the slot was free and <= 3 gaps were ever needed"],
+                real: REAL,
+                stub: STUB,
+                quick_s: 20.0,
+                thorough_s: 600.0,
+            },
+            CheckDef {
+                id: "C16",
+                props: Props::of(&["C16"]),
+                scens: vec![Scen { name: "dgram-pair-exact", weight: 1, run: dgram_exact }, Scen { name: "dgram-pair-sloppy", weight: 1, run: dgram_sloppy }],
+                rule: "tap oracle on every frame of Ethernet runs: unicast IP frames only to the hardware address validly learned for the next hop within the last 60 s; ARP requests / neighbour solicitations >= 1 s apart; non-trivial = fault fired AND >= 3 datagrams delivered; distinct = event-log hash",
+                assumptions: vec!["provisional: two-node topology only (next hop = peer); scripted responder scenario pending"],
+                real: REAL,
+                stub: STUB,
+                quick_s: 20.0,
+                thorough_s: 600.0,
+            },
+            CheckDef {
                 id: "C08",
                 props: Props::of(&["C08"]),
                 scens: vec![Scen { name: "tcp-pair-safety", weight: 1, run: tcp_safety }],
@@ -138,7 +185,7 @@ fn defs() -> &'static [CheckDef] {
             CheckDef {
                 id: "C13",
                 props: Props::of(&["C13"]),
-                scens: vec![Scen { name: "tcp-pair-liveness", weight: 1, run: tcp_liveness }],
+                scens: vec![Scen { name: "tcp-pair-liveness", weight: 2, run: tcp_liveness }, Scen { name: "dgram-pair-exact", weight: 1, run: dgram_exact }, Scen { name: "dgram-pair-frag", weight: 1, run: dgram_frag }],
                 rule: "early-poll probes (no frame, no socket call since the last poll) at tape-chosen instants before poll_at; idle-poll deadline check after every frame-less poll; distinct = event-log hash",
                 assumptions: vec!["IGMP/MLD report timers are outside the claim"],
                 real: REAL,
